@@ -58,7 +58,23 @@ class HashOnlyEq(str):
     __eq__ = str.__eq__
 
 
+class TwoArgError(Exception):
+    def __init__(self, a, b):
+        super().__init__(a, b)
+
+
+class RaisingStr:
+    """str() of this value raises an exception whose class cannot be rebuilt from one message string"""
+
+    def __str__(self):
+        raise TwoArgError("cannot print", 42)
+
+    def __repr__(self):
+        return "RaisingStr()"
+
+
 _WILD = []
+_RESIDENT = []  # (evaluator, generated function, records, text, layout) of earlier programs, still alive
 
 
 def wild_values():
@@ -70,7 +86,7 @@ def wild_values():
 
         _WILD.extend(exotic_splitter_values() + [12.0, -3.0, 1e16, 0.0, -0.0, 2.0, 1.0, True, None, float("nan"), float("inf"), {1, 2}, bytearray(b"x"),
                                                  Decimal("2"), Decimal("2.50"), Fraction(5, 2), EqAll(), HashOnlyEq("a"), HashOnlyEq("US"), "a", 1, 2, 3,
-                                                 [], {}, (), "", "US"])
+                                                 [], {}, (), "", "US", "u\ud83d", "\udc80", RaisingStr()])
     return _WILD
 
 
@@ -125,6 +141,25 @@ def check_program(ctx, im, text, gp, ninputs, layer, prog=None):
             continue
         if expose and not callable(ns.get("choose_experiment_variant")):
             ctx.count("exposed-layout-without-module-level-helper")
+        # evaluators of earlier programs are still alive (a service hosts many experiments): each must still agree with the
+        # function loaded from *its* generated text, whatever has been compiled since
+        for rev, rfn, renvs, rtext, rlayout, rprog in _RESIDENT:
+            for env in renvs:
+                a, b = im.call(rev, env), im.call(rfn, env)
+                ctx.evaluated()
+                if rprog.splitters or a[0] != "ok":
+                    same = a == b if a[0] != "exc" else (b[0] == "exc" and a[1] == b[1])
+                else:
+                    same = b[0] == "ok" and is_member(rprog, b[1])
+                if not same:
+                    ctx.violation("generated-source-disagrees-with-evaluator",
+                                  dict(text=rtext, layout=rlayout, env=env, evaluator=a, generated=b, layer="co-resident", compiled_since=text[:300]),
+                                  mechanism=mech(rprog, "C14/disagrees", f"{rlayout}/disagrees"))
+                    _RESIDENT.clear()
+                    return
+        if expose and envs and not (program_identifiers(prog) & HOSTILE):
+            _RESIDENT.append((ev, fn, envs[:4], text, layout, prog))
+            del _RESIDENT[:-3]
         for env in envs:
             a = im.call(ev, env)
             b = im.call(fn, env)
@@ -164,6 +199,8 @@ def run(ctx):
                 check_program(ctx, im, text, None, 5, "identifiers-" + pname)
     for name, text in size_shapes(rnd):
         idx += 1
+        if name == "splitters-3000":
+            continue  # (C07's business; formatting a 3000-parameter signature takes black several seconds)
         if ctx.mine(idx) and (not ctx.quick() or not name.endswith("-60") or name.startswith("chain")):
             check_program(ctx, im, text, None, 15, "size-shapes")
             ctx.seen("size_shapes", name)
